@@ -2,6 +2,7 @@ package schema
 
 import (
 	"context"
+	"fmt"
 )
 
 // Signal holds the definition for a single signal. This is universal for emitted or received.
@@ -108,6 +109,19 @@ func (s CallableSignalSchema[StepData, InputType]) Call(ctx context.Context, ste
 		return InvalidInputError{err}
 	}
 
-	s.handler(ctx, stepData.(StepData), input.(InputType))
+	// Step data is nil when the step has no initializer. A type assertion on a nil interface panics even
+	// when StepData is `any`, so only assert when there is something to assert on.
+	var typedStepData StepData
+	if stepData != nil {
+		var ok bool
+		typedStepData, ok = stepData.(StepData)
+		if !ok {
+			return BadArgumentError{
+				Message: fmt.Sprintf("Step data of type %T does not match the signal handler's step data type %T",
+					stepData, typedStepData),
+			}
+		}
+	}
+	s.handler(ctx, typedStepData, input.(InputType))
 	return nil
 }
